@@ -164,6 +164,50 @@ def run(ctx):
              f"the table is selected by the signature of '{norm(sigs[0].args[0]) if sigs else '?'}' but '{norm(st.value)}' is what gets registered: for a "
              f"@staticmethod / @classmethod member the two differ by the implicit first parameter, so a static guard is dropped, a static service "
              f"is registered as a guard and a static action as a service", st)
+    # ---- R8 every option of the Python definition API reaches the definition it builds -------------------------
+    # (a keyword that is accepted and dropped denotes a different machine than the JSON the caller had in mind: parallel=True
+    #  without "type": "parallel", history= without the history kind, a service that is never registered ...)
+    def _option_flows(f, skip=("self", "cls")):
+        stores = []
+        for x in own_nodes(f.node):
+            if isinstance(x, ast.Assign) and any(isinstance(t_, (ast.Subscript, ast.Attribute)) for t_ in x.targets):
+                stores.append((x, x))
+            elif isinstance(x, ast.AnnAssign) and isinstance(x.target, (ast.Subscript, ast.Attribute)) and x.value is not None:
+                stores.append((x, x))
+            elif isinstance(x, ast.Expr) and isinstance(x.value, ast.Call) and isinstance(x.value.func, ast.Attribute) and x.value.func.attr in ("append", "update", "add", "setdefault", "extend"):
+                stores.append((x, x.value))
+        # a local that selects where the stores go (parent_config = self._states[parent]) carries the option into them
+        bases = {}
+        for x in own_nodes(f.node):
+            if isinstance(x, ast.Assign) and isinstance(x.targets[0], ast.Name):
+                bases.setdefault(x.targets[0].id, set()).update(names_in(x.value))
+        from sa.util import ancestors as _anc
+        for prm in f.params:
+            if prm in skip:
+                continue
+            ok = False
+            for st_, val in stores:
+                nm = names_in(val)
+                if prm in nm or any(prm in bases.get(b_, ()) for b_ in nm):
+                    ok = True
+                    break
+                if any(isinstance(a_, ast.If) and prm in names_in(a_.test) for a_ in _anc(f, st_)):
+                    ok = True
+                    break
+            c.ob("R8", ok, f, f"option-reaches-definition:{prm}", f"'{prm}' is stored in (or decides a store into) the definition" if ok else
+                 f"the option '{prm}' of {f.short} no longer reaches any store: it is accepted and silently dropped, so the Python definition denotes a "
+                 f"different machine than the equivalent JSON config", f.node)
+    n8 = 0
+    for cls_name, meths in (("MachineBuilder", ("state", "transition", "child_states", "action", "guard", "service", "context")), ("State", ("__init__",)), ("Transition", ("__init__",))):
+        try:
+            cl = p.cls(cls_name)
+        except Exception:
+            continue
+        for mn in meths:
+            if mn in cl.methods:
+                n8 += 1
+                _option_flows(cl.methods[mn])
+    c.expect("R8", "definition-API functions examined", n8, 6, p.cls("MachineBuilder").methods["build"])
     # ---- R6 builds are independent --------------------------------------------------------------------
     bd = p.cls("MachineBuilder").methods["build"]
     dc = [x for x in own_nodes(bd.node) if isinstance(x, ast.Call) and norm(x.func) == "copy.deepcopy" and "_states" in norm(x.args[0])]
